@@ -356,6 +356,91 @@ func variantOf(selW int, arm1, arm2 kind, others []kind, selPos, a1, a2 int) typ
 	return t
 }
 
+// twoSelectorTypes: structs with two selectors whose variant fields are interleaved in every
+// order that keeps each variant after its own selector (80 layouts).
+func twoSelectorTypes() []typ {
+	u8, u16, u24 := &Shape{Kind: U8}, &Shape{Kind: U16}, &Shape{Kind: U24}
+	by := &Shape{Kind: Bytes, Min: 0, Max: 255}
+	// items: 0 = S, 1 = T, 2,3 = arms of S (values 1,2), 4,5 = arms of T (values 1,2)
+	shapes := []*Shape{nil, nil, u16, by, u8, u24}
+	sample := []any{nil, nil, uint64(0x0102), []byte{9, 8, 7}, uint64(0x7f), uint64(0x0a0b0c)}
+	var out []typ
+	perm := []int{0, 1, 2, 3, 4, 5}
+	var rec func(k int)
+	rec = func(k int) {
+		if k == len(perm) {
+			pos := make([]int, 6)
+			for i, it := range perm {
+				pos[it] = i
+			}
+			if pos[2] < pos[0] || pos[3] < pos[0] || pos[4] < pos[1] || pos[5] < pos[1] {
+				return
+			}
+			s := &Shape{Kind: Struct, Fields: make([]Field, 6)}
+			selName := map[int]string{}
+			for i, it := range perm {
+				if it == 0 || it == 1 {
+					selName[it] = fname(i)
+				}
+			}
+			for i, it := range perm {
+				switch it {
+				case 0, 1:
+					s.Fields[i] = Field{Name: fname(i), S: &Shape{Kind: Enum, Size: 1}}
+				case 2, 3:
+					s.Fields[i] = Field{Name: fname(i), S: shapes[it], Selector: selName[0], Val: uint64(it - 1)}
+				default:
+					s.Fields[i] = Field{Name: fname(i), S: shapes[it], Selector: selName[1], Val: uint64(it - 3)}
+				}
+			}
+			t := typ{s: s}
+			for _, sv := range []uint64{1, 2} {
+				for _, tv := range []uint64{1, 2} {
+					l := make([]any, 6)
+					for i, it := range perm {
+						switch {
+						case it == 0:
+							l[i] = sv
+						case it == 1:
+							l[i] = tv
+						case it == 1+int(sv), it == 3+int(tv):
+							l[i] = sample[it]
+						}
+					}
+					t.vals = append(t.vals, val{v: l, valid: true})
+				}
+			}
+			// ill-formed: an unknown value of the second selector; an arm of the other value set
+			bad := make([]any, 6)
+			bad2 := make([]any, 6)
+			for i, it := range perm {
+				switch it {
+				case 0:
+					bad[i], bad2[i] = uint64(1), uint64(1)
+				case 1:
+					bad[i], bad2[i] = uint64(3), uint64(1)
+				case 2:
+					bad[i], bad2[i] = sample[2], sample[2]
+				case 4:
+					bad2[i] = sample[4]
+				case 5:
+					bad2[i] = sample[5]
+				}
+			}
+			t.vals = append(t.vals, val{v: bad}, val{v: bad2})
+			out = append(out, t)
+			return
+		}
+		for i := k; i < len(perm); i++ {
+			perm[k], perm[i] = perm[i], perm[k]
+			rec(k + 1)
+			perm[k], perm[i] = perm[i], perm[k]
+		}
+	}
+	rec(0)
+	return out
+}
+
 func genTypes(thorough bool) []typ {
 	ks := kinds(thorough)
 	var core []kind
@@ -419,6 +504,7 @@ func genTypes(thorough bool) []typ {
 			}
 		}
 	}
+	ts = append(ts, twoSelectorTypes()...)
 	return ts
 }
 
